@@ -201,6 +201,17 @@ func (g *obGen) post(i int, hiddenBias bool) J {
 		if typ == "Add" {
 			a["target"] = g.st.Col1
 		}
+		if hiddenBias && r.Intn(4) == 0 {
+			// activities that need no object: intransitive ones, or ones that speak through target / origin only
+			switch typ {
+			case "Announce", "Listen", "Accept", "Reject", "Arrive":
+				delete(a, "object")
+				a["type"] = Pick(r, []string{typ, "Leave", "Join", "Offer", "Travel"})
+				if r.Bool() {
+					a["target"] = g.st.RNote
+				}
+			}
+		}
 		g.addressAll(a, hiddenBias)
 		return a
 	}
@@ -235,7 +246,7 @@ func genOutbox(r *Rng, prop string, k int, tier string) *RunSpec {
 	for _, id := range sortedKeys(g.docs) {
 		st.W.Remote = append(st.W.Remote, DocSpec{id, mustJSON(g.docs[id])})
 		if r.Intn(7) == 0 {
-			fate[id] = Pick(r, []string{"unreachable", "nonjson", "unknowntype", "notobject"})
+			fate[id] = Pick(r, []string{"unreachable", "nonjson", "unknowntype", "notobject", "trailing", "nocontext", "notype"})
 		}
 	}
 	if prop != "C02" && r.Intn(2) == 0 {
